@@ -102,6 +102,7 @@ func NewDriver(w *tf.Writer) *Driver {
 
 	wasm := map[string][]byte{"w3": testdata.Wasm1, "wfail": world.Wat2Wasm(watFail1), "w4": testdata.Wasm4,
 		"w1": world.Wat2Wasm(watOK1), "wnil": world.Wat2Wasm(watOKNil)}
+
 	for t, code := range wasm {
 		comp := testdata.Compile(code)
 		d.fileTok[sha(comp)] = t
@@ -128,6 +129,7 @@ func (d *Driver) world(nval int) *world.World {
 		return w
 	}
 	cfg := world.DefaultConfig()
+	cfg.GenesisScripts = 5 // the scripts of this family use oracle script id 6 as "the first id that does not exist yet"
 	toks := []int64{100_000_000, 1_000_000, 99_999_999, 50_000_000, 70_000_000}
 	cfg.ValTokens = toks[:nval]
 	w := world.New(cfg)
